@@ -261,7 +261,9 @@ theorem g_recordPattern {P : Prop} {x : String} {id : Nat} (cfg : Cfg) (sy : Sym
     G P x id (recordPattern cfg sy e s) := by
   unfold recordPattern
   simp only
-  split <;> exact g_core h rfl rfl rfl rfl rfl
+  split
+  · exact g_core h rfl rfl rfl rfl rfl
+  · split <;> exact g_core h rfl rfl rfl rfl rfl
 
 theorem frG_nil (P : Prop) (x : String) (id : Nat) (syms : List Sym) : FrG P x id syms [] := by intro e he; simp at he
 
